@@ -218,6 +218,12 @@ func checkArgs(c *core.Ctx, p *Parser, e *Enq, key string, pa *ast.CallExpr) {
 		return
 	}
 	if src == nil && nonEmptyMake != nil {
+		// make([]T, len(S)) filled by `for i := range S { D[i] = S[i] }` (or the range value)
+		if idx := indexedFill(info, body, id, nonEmptyMake); idx != nil {
+			src = idx
+		}
+	}
+	if src == nil && nonEmptyMake != nil {
 		und("the argument slice is pre-sized by `%s` and filled by index: not the known append form", c.Src(nonEmptyMake))
 		return
 	}
@@ -251,6 +257,78 @@ func checkArgs(c *core.Ctx, p *Parser, e *Enq, key string, pa *ast.CallExpr) {
 		return
 	}
 	und("the copied slice `%s` does not come from HandleFilterKeyWithCommand", c.Src(src))
+}
+
+// atoiOfFirst: o is the first result of strconv.Atoi(<string of X[0]>) with isArgv(X).
+func atoiOfFirst(info *types.Info, scope ast.Node, o Origin, isArgv func(ast.Expr) bool) bool {
+	call, ok := CallOrigin(info, o, "strconv", "", "Atoi", 0)
+	if !ok || len(call.Args) != 1 {
+		return false
+	}
+	ao, ok := SoleOrigin(info, scope, call.Args[0])
+	if !ok {
+		return false
+	}
+	ix, _ := ast.Unparen(ao.Expr).(*ast.IndexExpr)
+	if ix == nil {
+		return false
+	}
+	i0, isC := core.IntConst(info, ix.Index)
+	return isC && i0 == 0 && isArgv(ix.X)
+}
+
+// indexedFill recognises `D := make([]T, len(S)); for i[, v] := range S { D[i] = S[i] | v }`
+// (the assignment being a top-level statement of the range body) and returns S.
+func indexedFill(info *types.Info, body ast.Node, d *ast.Ident, mk *ast.CallExpr) ast.Expr {
+	if len(mk.Args) != 2 {
+		return nil
+	}
+	b := pat.Expr("len(_s)").Match(info, mk.Args[1], nil)
+	if b == nil {
+		return nil
+	}
+	var hit ast.Expr
+	n := 0
+	core.Inspect(body, func(m ast.Node) bool {
+		rs, ok := m.(*ast.RangeStmt)
+		if !ok {
+			// any other element write of D makes the form unknown
+			if as, ok := m.(*ast.AssignStmt); ok {
+				for _, l := range as.Lhs {
+					if ix, ok := ast.Unparen(l).(*ast.IndexExpr); ok && pat.Same(info, ix.X, d) {
+						n++
+					}
+				}
+			}
+			return true
+		}
+		if !pat.Same(info, rs.X, b["_s"]) || rs.Key == nil {
+			return true
+		}
+		for _, st := range rs.Body.List {
+			as, ok := st.(*ast.AssignStmt)
+			if !ok || len(as.Lhs) != 1 || len(as.Rhs) != 1 || as.Tok != token.ASSIGN {
+				continue
+			}
+			ix, ok := ast.Unparen(as.Lhs[0]).(*ast.IndexExpr)
+			if !ok || !pat.Same(info, ix.X, d) || !pat.Same(info, ix.Index, rs.Key) {
+				continue
+			}
+			rhs := ast.Unparen(as.Rhs[0])
+			okVal := rs.Value != nil && pat.Same(info, rhs, rs.Value)
+			if sx, ok := rhs.(*ast.IndexExpr); ok && pat.Same(info, sx.X, rs.X) && pat.Same(info, sx.Index, rs.Key) {
+				okVal = true
+			}
+			if okVal {
+				hit = rs.X
+			}
+		}
+		return true
+	})
+	if n != 1 { // exactly one element write, the recognised one
+		return nil
+	}
+	return hit
 }
 
 // checkLastDb: every definition of the Db variable is -1, the parsed SELECT argument or target.db.
@@ -293,17 +371,54 @@ func checkLastDb(c *core.Ctx, p *Parser, key string, v *types.Var) {
 				}
 				continue
 			}
-			if call, ok := CallOrigin(info, o, "strconv", "", "Atoi", 0); ok && len(call.Args) == 1 {
-				ao, ok := SoleOrigin(info, body, call.Args[0])
-				ix, _ := ast.Unparen(ao.Expr).(*ast.IndexExpr)
-				if ok && ix != nil {
-					if i0, isC := core.IntConst(info, ix.Index); isC && i0 == 0 {
-						if xo, ok := SoleOrigin(info, body, ix.X); ok {
-							if pc, ok := CallOrigin(info, xo, "pkg/redis", "", "ParseArgs", 1); ok && len(pc.Args) == 1 && IsObj(info, p.Resp)(pc.Args[0]) {
-								c.Okf(rule, k, pos, "the argument of the parsed SELECT")
-								continue
-							}
+			isArgv := func(x ast.Expr) bool { // the argument vector of this iteration's ParseArgs(resp)
+				xo, ok := SoleOrigin(info, body, x)
+				if !ok {
+					return false
+				}
+				pc, ok := CallOrigin(info, xo, "pkg/redis", "", "ParseArgs", 1)
+				return ok && len(pc.Args) == 1 && IsObj(info, p.Resp)(pc.Args[0])
+			}
+			if atoiOfFirst(info, body, o, isArgv) {
+				c.Okf(rule, k, pos, "the argument of the parsed SELECT")
+				continue
+			}
+			// or a module helper that parses its argv parameter: every return is Atoi(string(param[0]))
+			if hc, isCall := ast.Unparen(o.Expr).(*ast.CallExpr); isCall && o.Res <= 0 && o.Op == 0 && !o.Range {
+				if fn := c.FnOf(core.CalleeFunc(info, hc)); fn != nil && fn.Decl.Body != nil && strings.HasPrefix(fn.Pkg.PkgPath, core.Module) &&
+					fn.Obj.Type().(*types.Signature).Results().Len() == 1 {
+					finfo := fn.Pkg.TypesInfo
+					good, rets := true, 0
+					core.Inspect(fn.Decl.Body, func(m ast.Node) bool {
+						ret, ok := m.(*ast.ReturnStmt)
+						if !ok || len(ret.Results) != 1 {
+							return true
 						}
+						rets++
+						ro, ok := SoleOrigin(finfo, fn.Decl, ret.Results[0])
+						if !ok || !atoiOfFirst(finfo, fn.Decl, ro, func(x ast.Expr) bool {
+							id, ok := ast.Unparen(x).(*ast.Ident)
+							if !ok {
+								return false
+							}
+							pi := 0
+							for _, f := range fn.Decl.Type.Params.List {
+								for _, nm := range f.Names {
+									if finfo.Defs[nm] == core.ObjOf(finfo, id) && pi < len(hc.Args) && isArgv(hc.Args[pi]) {
+										return true
+									}
+									pi++
+								}
+							}
+							return false
+						}) {
+							good = false
+						}
+						return true
+					})
+					if good && rets > 0 {
+						c.Okf(rule, k, pos, "the argument of the parsed SELECT (parsed by %s)", fn.Name())
+						continue
 					}
 				}
 			}
@@ -434,10 +549,14 @@ func fixedTargetDb(c *core.Ctx, p *Parser, e *Enq, rule, key string) {
 		}
 		core.Inspect(b.Root(), func(n ast.Node) bool {
 			if call, ok := n.(*ast.CallExpr); ok && len(call.Args) > 0 {
-				_, isSend := ConnMethod(b.Pkg.TypesInfo, call, "Send")
 				_, isDo := ConnMethod(b.Pkg.TypesInfo, call, "Do")
-				if v, ok := core.StringConst(b.Pkg.TypesInfo, call.Args[0]); ok && (isSend || isDo) && strings.EqualFold(v, "select") {
+				if v, ok := core.StringConst(b.Pkg.TypesInfo, call.Args[0]); ok && isDo && strings.EqualFold(v, "select") {
 					preselected = true
+				}
+				if site := SendOf(b.Pkg.TypesInfo, call); site != nil && len(site.Args) > 0 {
+					if v, ok := core.StringConst(b.Pkg.TypesInfo, site.Args[0]); ok && strings.EqualFold(v, "select") {
+						preselected = true
+					}
 				}
 			}
 			return true
